@@ -35,14 +35,47 @@ pub struct Response {
     /// deliver the body in several TCP writes separated by a short pause, cut at these offsets
     /// (environment answer: how the transport fragments the body)
     pub split_at: Vec<usize>,
+    /// how the end of the body is signalled; None = the simulator-wide default (`set_default_framing`)
+    pub framing: Option<Framing>,
+    /// the transfer dies after this many body bytes: the connection is closed although the framing
+    /// promised more (full Content-Length declared / no terminating chunk)
+    pub truncate_at: Option<usize>,
 }
+
+/// HTTP/1.1 body framings a real server may choose (S3 sends Content-Length for objects and
+/// chunked transfer encoding for listings).
+#[derive(Clone, Copy, Debug, PartialEq, Eq)]
+pub enum Framing {
+    Length,
+    /// Transfer-Encoding: chunked with chunks of this many bytes
+    Chunked(usize),
+    /// neither header: the body ends when the server closes the connection
+    Close,
+}
+
+static DEFAULT_FRAMING: std::sync::atomic::AtomicUsize = std::sync::atomic::AtomicUsize::new(0);
+
+/// 0 = Content-Length, n >= 2 = chunked with n-byte chunks, 1 = close-delimited
+pub fn set_default_framing(f: Framing) {
+    DEFAULT_FRAMING.store(match f { Framing::Length => 0, Framing::Close => 1, Framing::Chunked(n) => n.max(2) }, Ordering::SeqCst);
+}
+
+pub fn default_framing() -> Framing {
+    match DEFAULT_FRAMING.load(Ordering::SeqCst) {
+        0 => Framing::Length,
+        1 => Framing::Close,
+        n => Framing::Chunked(n),
+    }
+}
+
+pub const FRAMINGS: [Framing; 4] = [Framing::Length, Framing::Chunked(1000), Framing::Chunked(7), Framing::Close];
 
 impl Response {
     pub fn new(status: u16, body: Vec<u8>) -> Self {
-        Response { status, headers: vec![], body, declared_len: None, split_at: vec![] }
+        Response { status, headers: vec![], body, declared_len: None, split_at: vec![], framing: None, truncate_at: None }
     }
     pub fn xml(status: u16, body: String) -> Self {
-        Response { status, headers: vec![("Content-Type".into(), "application/xml".into())], body: body.into_bytes(), declared_len: None, split_at: vec![] }
+        Response { status, headers: vec![("Content-Type".into(), "application/xml".into())], body: body.into_bytes(), declared_len: None, split_at: vec![], framing: None, truncate_at: None }
     }
     pub fn header(mut self, k: &str, v: &str) -> Self {
         self.headers.push((k.into(), v.into()));
@@ -176,23 +209,45 @@ fn serve(mut s: TcpStream, handler: &Arc<Mutex<Option<Handler>>>) {
         out.push_str(&format!("{k}: {v}\r\n"));
     }
     let no_body = resp.status == 204 || resp.status == 304;
+    let framing = resp.framing.unwrap_or_else(default_framing);
     if !no_body {
-        out.push_str(&format!("Content-Length: {}\r\n", resp.declared_len.unwrap_or(resp.body.len())));
+        match framing {
+            Framing::Length => out.push_str(&format!("Content-Length: {}\r\n", resp.declared_len.unwrap_or(resp.body.len()))),
+            Framing::Chunked(_) => out.push_str("Transfer-Encoding: chunked\r\n"),
+            Framing::Close => {}
+        }
     }
     out.push_str("Connection: close\r\n\r\n");
     let _ = s.write_all(out.as_bytes());
     if !no_body {
+        // the bytes that go on the wire after the head
+        let upto = resp.truncate_at.map(|t| t.min(resp.body.len())).unwrap_or(resp.body.len());
+        let wire: Vec<u8> = match framing {
+            Framing::Chunked(n) => {
+                let mut w = Vec::with_capacity(upto + upto / n.max(1) * 8 + 16);
+                for c in resp.body[..upto].chunks(n.max(1)) {
+                    w.extend_from_slice(format!("{:x}\r\n", c.len()).as_bytes());
+                    w.extend_from_slice(c);
+                    w.extend_from_slice(b"\r\n");
+                }
+                if resp.truncate_at.is_none() {
+                    w.extend_from_slice(b"0\r\n\r\n");
+                }
+                w
+            }
+            _ => resp.body[..upto].to_vec(),
+        };
         if resp.split_at.is_empty() {
-            let _ = s.write_all(&resp.body);
+            let _ = s.write_all(&wire);
         } else {
             let _ = s.flush();
-            let mut cuts: Vec<usize> = resp.split_at.iter().copied().filter(|c| *c > 0 && *c < resp.body.len()).collect();
+            let mut cuts: Vec<usize> = resp.split_at.iter().copied().filter(|c| *c > 0 && *c < wire.len()).collect();
             cuts.sort();
             cuts.dedup();
             let mut at = 0;
             std::thread::sleep(std::time::Duration::from_millis(3));
-            for c in cuts.into_iter().chain(std::iter::once(resp.body.len())) {
-                let _ = s.write_all(&resp.body[at..c]);
+            for c in cuts.into_iter().chain(std::iter::once(wire.len())) {
+                let _ = s.write_all(&wire[at..c]);
                 let _ = s.flush();
                 at = c;
                 std::thread::sleep(std::time::Duration::from_millis(3));
